@@ -6,6 +6,7 @@ import SeqVerif.Model.BulkCompose
 import SeqVerif.Model.BulkResponse
 import SeqVerif.Model.BulkConfig
 import SeqVerif.Model.BulkHandover
+import SeqVerif.Model.BulkID
 import SeqVerif.Model.CollectorLemmas
 import SeqVerif.Extracted.C10
 /-!
@@ -312,6 +313,24 @@ theorem c10_handover_pooled_counterexample :
     (SV.Handover.run SV.Handover.stepPooled [.accept 1, .accept 2, .work, .work]).out = [(1, some 2), (2, some 2)] :=
   SV.Handover.pooled_counterexample
 
+/-- **C10 (hand-over from the ingestor to the storage client).**  `ProcessDocuments` hands the pooled compressor's
+own buffers to `StoreDocuments` and returns the compressor to the pool only after that call has returned
+(`c10_x_compressor_lifetime`).  Under that discipline, for every interleaving of overlapping bulks, every client
+call sees the blocks of its own bulk; releasing at hand-over instead is `c10_handover_pooled_counterexample`. -/
+theorem c10_handover_held_safe (evs : List SV.Handover.Ev) :
+    ∀ o, o ∈ (SV.Handover.run SV.Handover.stepHeld evs).out → o.2 = some o.1 :=
+  SV.Handover.held_safe evs
+
+/-- **C10 (stored exactly once: IDs do not collide by construction).**  The RID `Process` gives a document is the 48
+effective random bits of its draw over the ingestor's index, unchanged by `NewID`: two documents - whatever their
+times - get the same RID only if their 48 random bits and their ingestor index coincide. -/
+theorem c10_rid_injective (t1 t2 : Int) (r1 r2 i1 i2 : Nat) (h1 : i1 < 65536) (h2 : i2 < 65536)
+    (h : ridOf t1 r1 i1 = ridOf t2 r2 i2) : r1 % 281474976710656 = r2 % 281474976710656 ∧ i1 = i2 :=
+  rid_injective t1 t2 r1 r2 i1 i2 h1 h2 h
+
+/-- draws that differ only in bits 28..47 give different RIDs at the same instant -/
+example : ridOf 1790000000000123456 (5 + 1 * 268435456) 7 ≠ ridOf 1790000000000123456 (5 + 2 * 268435456) 7 := by decide
+
 /-! ## time rule -/
 
 open SV.Extracted.C10 in
@@ -520,6 +539,20 @@ theorem c10_x_set_defaults :
 theorem c10_x_in_memory_glue :
     inMemoryBulk = ["in.Metas = slices.Clone(in.Metas)", "return i.store.GrpcV1().Bulk(ctx, in)"] ∧
     inMemoryBulkReleasesOrPools = false := ⟨rfl, rfl⟩
+
+/-- `NewID` is `TimeToMID(t)` and the caller's randomness, nothing else; `Process` passes `(rand.Uint64()<<16)+p.proxyIndex`
+(`c10_x_process_time`); `IngestorMaxInstances` fits the 16-bit slot -/
+theorem c10_x_new_id :
+    newIDBody = ["mid := TimeToMID(t)", "return ID{MID: mid, RID: RID(randomness)}"] ∧ ingestorMaxInstances ≤ 65536 :=
+  ⟨rfl, by decide⟩
+
+/-- `ProcessDocuments` holds the pooled compressor from before the processing loop until it returns (`defer`), takes
+the blocks from it and passes them to the single `StoreDocuments` call -/
+theorem c10_x_compressor_lifetime :
+    compressorLifetime = ["compressor := frac.GetDocsMetasCompressor(i.config.DocsZSTDCompressLevel, i.config.MetasZSTDCompressLevel)",
+      "defer frac.PutDocMetasCompressor(compressor)", "docs, metas := compressor.DocsMetas()",
+      "i.client.StoreDocuments(ctx, total, docs, metas)"] ∧ compressorPoolUsesOutsideProcessDocuments = [] :=
+  ⟨rfl, rfl⟩
 
 /-! ## Non-vacuity -/
 
